@@ -91,6 +91,18 @@ func c04Bounds(tier string) (maxFeat, maxDepth, maxSum int) {
 	return 2, 2, 3
 }
 
+// c04IDBonus: feature subsets that shape the relationship ids of the opened package get one more edit than the
+// size+depth budget allows (two id-allocating edits are needed before a second allocation can go wrong).
+func c04IDBonus(feats []string) int {
+	for _, f := range feats {
+		switch f {
+		case "sparse-ids", "sparse-ids-even", "shared-hdr-id", "stylesWithEffects":
+			return 1
+		}
+	}
+	return 0
+}
+
 // c04Subsets enumerates all conflict-free feature subsets of size <= k in a fixed order.
 func c04Subsets(k int, f func(feats []string)) {
 	all := foreign.Features
@@ -670,7 +682,7 @@ func c04Worker(c *shard.Ctx) {
 	c04Subsets(maxFeat, func(feats []string) {
 		var seed *c04Seed
 		c04Histories(maxDepth, func(h []int) {
-			if len(feats)+len(h) > maxSum {
+			if len(feats)+len(h) > maxSum+c04IDBonus(feats) {
 				return
 			}
 			idx++
@@ -742,7 +754,7 @@ func runC04(r *rep.Run) {
 	c04Subsets(maxFeat, func(f []string) {
 		nSeeds++
 		c04Histories(maxDepth, func(h []int) {
-			if len(f)+len(h) <= maxSum {
+			if len(f)+len(h) <= maxSum+c04IDBonus(f) {
 				nCases++
 			}
 		})
@@ -760,6 +772,7 @@ func runC04(r *rep.Run) {
 	r.Bounds["max_edit_history"] = maxDepth
 	r.Bounds["histories_of_max_length"] = nHist
 	r.Bounds["max_features_plus_edits"] = maxSum
+	r.Bounds["max_features_plus_edits_with_an_id_shaping_feature"] = maxSum + 1
 	r.Bounds["cases"] = nCases
 	r.Assume = []string{
 		"foreign packages are those the harness writer composes (string templates, validated by the independent reader); the main part is word/document.xml",
